@@ -210,6 +210,21 @@ fn fn_headers(text: &str) -> Vec<FnHdr> {
 }
 
 /// the unique function of the given shape, or the default
+/// replace the statement / expression starting at `call_prefix` (up to its matching parenthesis) by a panic
+fn replace_call_with_panic(snippet: &str, call_prefix: &str) -> String {
+    if let Some(p) = snippet.find(call_prefix) {
+        let cs: Vec<char> = snippet.chars().collect();
+        let start = snippet[..p].chars().count();
+        let open = start + call_prefix.chars().count() - 1;
+        if let Some(e) = matching(&cs, open) {
+            let before: String = cs[..start].iter().collect();
+            let after: String = cs[e + 1..].iter().collect();
+            return format!("{}panic!(\"verif-accessor-absent\"){}", before, after);
+        }
+    }
+    snippet.to_string()
+}
+
 fn pick(hdrs: &[FnHdr], params: &[&str], ret: &str, want_pub: Option<bool>, default: &str) -> String {
     let mut names: Vec<&str> = hdrs
         .iter()
@@ -526,6 +541,19 @@ fn main() {
                     let defined = text.contains(&format!("fn {}(", fname)) || text.contains(&format!("fn {} (", fname));
                     if !defined {
                         snippet = snippet.replace("@BOOL_STUB@(buf.as_mut_ptr(), value);", "buf.clear(); let _ = value;");
+                    }
+                }
+            }
+            // accessors of internal functions are optional as well: when the file has no function that can be
+            // called the way the accessor calls it (a rewrite changed its parameters), the accessor panics
+            // with a message the generators recognise; they then say so and skip the lines that need it
+            for (key, call_prefix, arity) in [("@GEN_BRANCH@", "@GEN_BRANCH@(", 2usize), ("@ALLOC@", "@ALLOC@(", 2), ("@APPLY@", "@APPLY@(", 4)] {
+                if let Some((_, fname)) = bindings.iter().find(|(k, _)| k == key) {
+                    if snippet.contains(call_prefix) {
+                        let ok = fn_headers(&text).iter().any(|h| &h.name == fname && h.params.len() == arity);
+                        if !ok {
+                            snippet = replace_call_with_panic(&snippet, call_prefix);
+                        }
                     }
                 }
             }
